@@ -94,6 +94,14 @@ def run(ctx):
         grp = np.array([ctx.rng.choice([1, 2, 3]) for _ in range(n)])
         pa = guarded(utils.permute_within_groups, np.arange(n), grp, seed); pb = guarded(utils.permute_within_groups, 50 - 2 * np.arange(n), grp, seed)
         ctx.count("shared-rearrangements-permute_within_groups")
+        # a variable with ties / constant within a stratum must be rearranged exactly like the unit ids
+        B = np.array([float(ctx.rng.choice([7, 7, 7, 1, 3])) for _ in range(n)])
+        k0 = ctx.rng.choice(grp.tolist()); B[grp == k0] = 7.0
+        pc = guarded(utils.permute_within_groups, B, grp, seed)
+        if pa[0] == "ok" and (pc[0] != "ok" or pc[1].tolist() != B[[int(v) for v in pa[1]]].tolist()):
+            ctx.violation("oracle", {"call": "permute_within_groups", "group": grp.tolist(), "seed": seed, "values": B.tolist(),
+                                     "issue": "under one seed a variable that is constant within a stratum is rearranged differently from the unit ids (the draws consumed depend on the data values)",
+                                     "ids_rearranged": [int(v) for v in pa[1]], "values_rearranged": pc[1].tolist() if pc[0] == "ok" else str(pc[1:])}, site="permute_within_groups")
         if pa[0] != "ok" or pb[0] != "ok" or [int(v) for v in pa[1]] != [int((50 - v) // 2) for v in pb[1]]:
             ctx.violation("oracle", {"call": "permute_within_groups", "group": grp.tolist(), "seed": seed,
                                      "issue": "the same seed gives different within-group rearrangements for different data values"}, site="permute_within_groups")
